@@ -1177,6 +1177,30 @@ async fn run(_tier: Tier) {
             }
         }
     }
+    // Names outside the zone - ancestors of the apex (the root among them),
+    // a sibling, a name the apex is the front part of - have no answer in
+    // it: the zone says so rather than answering for some node of its own.
+    let mut outside: Vec<String> = vec![".".into(), format!("x{}", APEX), format!("{}other.", APEX), "other.".into()];
+    let mut rest = APEX;
+    while let Some((_, r)) = rest.split_once('.') {
+        if r.is_empty() {
+            break;
+        }
+        outside.push(r.to_string());
+        rest = r;
+    }
+    for q in &outside {
+        for t in [Rtype::A, Rtype::SOA, Rtype::NS] {
+            for (which, r) in [("with history", hist_reader.as_ref()), ("built directly", direct_reader.as_ref())] {
+                n_cmp += 1;
+                if let Ok(a) = query_zone(r, q, t) {
+                    if sim::violation(P8, "scope", "name-outside-the-zone-answered".to_string(), format!("zone {} ({}) answered {} {}: {:?}", APEX, which, q, t, a)) {
+                        return;
+                    }
+                }
+            }
+        }
+    }
     sim::stat_add("counter.queries_compared", n_cmp);
     if h.aborts > 0 {
         sim::stat("probe.history_with_abort");
